@@ -651,6 +651,13 @@ def table_cases(draw):
         rowspan = [r0, k0, n]
         for r in range(r0 + 1, r0 + n):
             rows[r]['cells'][k0] = None
+    # ragged variant: the first row has fewer cells than the others, so the top border is narrower than the table
+    # (no wrap columns, spans or rowspans: every cell is one line and the lines read row by row)
+    ragged = 0
+    if ncols >= 2 and nrows >= 2 and rowspan is None and not any(row['span'] for row in rows) and draw(st.sampled_from([0, 0, 0, 1])):
+        ragged = draw(st.integers(1, ncols - 1))
+        wrap_cols = []
+        rows[0]['cells'] = rows[0]['cells'][:ragged]
     classes = ['default'] + [(draw(st.sampled_from(['', 'centre'])) + (':w' if k in wrap_cols else '')) for k in range(ncols)]
     while classes and classes[-1] == '':
         classes.pop()
@@ -675,7 +682,7 @@ def table_cases(draw):
     else:
         lines += ['c32768 XOR A ; first'] + para + [' 32769 RET ; last']
     return {'kind': kind, 'skool': '\n'.join(lines) + '\n', 'props': props, 'where': where, 'ncols': ncols, 'wrap_cols': wrap_cols,
-            'rows': rows, 'items': items, 'intro': intro, 'outro': outro, 'rowspan': rowspan}
+            'rows': rows, 'items': items, 'intro': intro, 'outro': outro, 'rowspan': rowspan, 'ragged': ragged}
 
 
 def table_oracle(case, rec=None):
@@ -700,6 +707,8 @@ def table_oracle(case, rec=None):
     before = lines[:tl[0]]
     after = lines[tl[-1] + 1:]
     ncols = case['ncols']
+    if case.get('ragged'):
+        return _ragged_table_oracle(case, r, table, before, after, width, rec)
     # --- borders / geometry
     top = table[0]
     bottom = table[-1]
@@ -796,6 +805,24 @@ def table_oracle(case, rec=None):
         rec.case((case['skool'], repr(sorted(props.items()))), wrapped or L > maxw,
                  ['table', 'table:' + case['where']] + (['table:rowspan'] if case.get('rowspan') else []) + (['table:wrapped'] if wrapped else []) + (['table:over-width'] if L > maxw else []) + (['table:list'] if case['items'] else []),
                  {'props': props, 'skool': case['skool'][:500]})
+
+
+def _ragged_table_oracle(case, r, table, before, after, width, rec):
+    got = [w for l in table if not re.match(r'^[+\-| ]*$', l) for w in words(l.replace('|', ' '))]
+    exp = [w for row in case['rows'] for c in row['cells'] for w in c]
+    if got != exp:
+        raise Violation('table:words', 'words of the (ragged) table differ: %s' % _first_diff(got, exp), case)
+    L = max(len(l) for l in table)
+    maxw = width - 2
+    warned = 'Table in entry at' in r.err
+    if (L > maxw) != warned:
+        raise Violation('table:warning', 'table (first row narrower than the rest) is %d characters wide, the description width is %d, warning printed: %s' % (L, maxw, warned), case)
+    got_before = [w for l in before for w in words(l[1:])]
+    if got_before != ['Title'] + list(case['intro']):
+        raise Violation('table:words', 'text before the table differs: %s' % _first_diff(got_before, ['Title'] + list(case['intro'])), case)
+    if rec is not None:
+        rec.case((case['skool'], repr(sorted(case['props'].items()))), L > maxw, ['table', 'table:ragged'] + (['table:over-width'] if L > maxw else []),
+                 {'props': case['props'], 'skool': case['skool'][:500]})
 
 
 def table_html_oracle(case, rec=None):
